@@ -7,6 +7,9 @@ Definition is_query (x : obs) : bool := match x with OBsQuery _ => true | _ => f
 Definition is_log (x : obs) : bool := match x with OLog _ _ => true | _ => false end.
 (* observations other than provider queries and log lines *)
 Definition plain_obs (x : obs) : bool := negb (is_query x) && negb (is_log x).
+Definition is_ghost (x : obs) : bool := match x with GUnbounded _ _ _ => true | _ => false end.
+(* observations of the flag-level walk: store reads, membership look-ups, events *)
+Definition walk_obs (x : obs) : bool := plain_obs x && negb (is_ghost x).
 
 Section Keeps.
 Variable re_ok : str -> bool.
@@ -16,11 +19,13 @@ Variable E : env.
 Variable P : bsprov.
 Variable c : ctx.
 
+(* A state predicate stable under (1) the observations of the walk, (2) log lines and (3) the big-segment block of a
+   segment evaluation taken as ONE step (it emits a ghost observation, may query the provider and may change the status
+   register, in that order: an invariant relating them only holds again at the end of the block). *)
 Variable I : st -> Prop.
-Hypothesis I_emit : forall x s, plain_obs x = true -> I s -> I (mkst (s_cache s) (s_status s) (x :: s_trace s)).
+Hypothesis I_emit : forall x s, walk_obs x = true -> I s -> I (mkst (s_cache s) (s_status s) (x :: s_trace s)).
 Hypothesis I_log : forall k e s, I s -> I (snd (log o k e s)).
-Hypothesis I_status : forall b s, I s -> I (mkst (s_cache s) (Some b) (s_trace s)).
-Hypothesis I_membership : forall k s, I s -> I (snd (membership_for P k s)).
+Hypothesis I_early : forall sg s, I s -> I (snd (seg_early P c sg s)).
 
 Definition keeps {A} (m : M A) : Prop := forall s, I s -> I (snd (m s)).
 
@@ -30,10 +35,8 @@ Lemma keeps_fail1 {A} : keeps (@out_of_fuel A).
 Proof. intros s H; exact H. Qed.
 Lemma keeps_fail2 {A} : keeps (@panic A).
 Proof. intros s H; exact H. Qed.
-Lemma keeps_emit x : plain_obs x = true -> keeps (emit x).
+Lemma keeps_emit x : walk_obs x = true -> keeps (emit x).
 Proof. intros Hx s H. apply I_emit; assumption. Qed.
-Lemma keeps_set_status b : keeps (set_status b).
-Proof. intros s H. apply I_status; assumption. Qed.
 Lemma keeps_bind {A B} (m : M A) (f : A -> M B) : keeps m -> (forall a, keeps (f a)) -> keeps (bind m f).
 Proof.
   intros Hm Hf s Hs. unfold bind. specialize (Hm s Hs). destruct (m s) as [[a| |] s1]; simpl in *; auto. apply Hf. exact Hm.
@@ -43,7 +46,7 @@ Proof. intros s H. apply I_log. exact H. Qed.
 
 Ltac k_tac :=
   repeat first
-    [ apply keeps_ret | apply keeps_set_status | apply keeps_log | apply keeps_fail1 | apply keeps_fail2
+    [ apply keeps_ret | apply keeps_log | apply keeps_fail1 | apply keeps_fail2
     | apply keeps_emit; reflexivity
     | apply keeps_bind; [ | intros ? ] ].
 
@@ -76,14 +79,11 @@ Qed.
 
 Lemma keeps_seg_contains : forall fuel chain sg, keeps (seg_contains re_ok re_match o E P c fuel chain sg).
 Proof.
-  induction fuel as [|n IH]; intros chain sg; cbn [seg_contains]; [apply keeps_fail1|].
+  induction fuel as [|n IH]; intros chain sg; [apply keeps_fail1|].
+  rewrite seg_contains_unfold.
   destruct (mem_str (sg_key sg) chain); [apply keeps_ret|].
   apply keeps_bind.
-  - destruct (sg_unbounded sg); [|apply keeps_ret].
-    destruct (sg_generation sg); [|k_tac].
-    destruct (ctx_key_by_kind c (sg_unb_kind sg)); [|k_tac].
-    apply keeps_bind; [apply keeps_emit; reflexivity|]. intros _.
-    apply keeps_bind; [intros st1 Hst1; apply I_membership; exact Hst1|]. intros [m|]; k_tac.
+  - intros s Hs. apply I_early. exact Hs.
   - intros [b|]; [apply keeps_ret|].
     apply keeps_seg_rules. intros r. apply keeps_seg_rule_match. intros sg'. apply IH.
 Qed.
@@ -137,6 +137,54 @@ Qed.
 
 End Keeps.
 
+(* the same with the block opened up: stability under every primitive effect implies stability under the block *)
+Section KeepsPrims.
+Variable re_ok : str -> bool.
+Variable re_match : str -> str -> bool.
+Variable o : opts.
+Variable E : env.
+Variable P : bsprov.
+Variable c : ctx.
+Variable I : st -> Prop.
+Hypothesis I_emit : forall x s, plain_obs x = true -> I s -> I (mkst (s_cache s) (s_status s) (x :: s_trace s)).
+Hypothesis I_log : forall k e s, I s -> I (snd (log o k e s)).
+Hypothesis I_status : forall b s, I s -> I (mkst (s_cache s) (Some b) (s_trace s)).
+Hypothesis I_membership : forall k s, I s -> I (snd (membership_for P k s)).
+
+Lemma early_from_prims sg s : I s -> I (snd (seg_early P c sg s)).
+Proof.
+  intros Hs. unfold seg_early. destruct (sg_unbounded sg); [|exact Hs].
+  destruct (sg_generation sg) as [g|].
+  - destruct (ctx_key_by_kind c (sg_unb_kind sg)) as [k|].
+    + unfold bind, emit. cbn [fst snd].
+      set (s1 := mkst (s_cache s) (s_status s) (GUnbounded (sg_key sg) true true :: s_trace s)).
+      assert (H1 : I s1) by (apply I_emit; [reflexivity|exact Hs]).
+      pose proof (I_membership k s1 H1) as H2.
+      destruct (membership_for P k s1) as [[m| |] s2]; cbn [fst snd] in *; try exact H2.
+      destruct m as [mem|]; [|exact H2]. cbn [fst snd]. apply I_emit; [reflexivity|exact H2].
+    + unfold bind, emit. cbn [fst snd]. apply I_emit; [reflexivity|exact Hs].
+  - unfold bind, emit, set_status. cbn [fst snd]. apply I_status. apply (I_emit _ s); [reflexivity|exact Hs].
+Qed.
+
+Lemma walk_is_plain x : walk_obs x = true -> plain_obs x = true.
+Proof. unfold walk_obs. intros H. apply andb_prop in H. exact (proj1 H). Qed.
+
+Theorem keeps_eval_flag_prims fuel chain f s : I s -> I (snd (eval_flag re_ok re_match o E P c fuel chain f s)).
+Proof.
+  apply (keeps_eval_flag re_ok re_match o E P c I).
+  - intros x s0 Hx H. apply I_emit; [apply walk_is_plain; exact Hx|exact H].
+  - exact I_log.
+  - exact early_from_prims.
+Qed.
+Theorem keeps_rule_clauses_prims cls s :
+  I s -> I (snd (first_clause (clause_match re_ok re_match E c (seg_contains re_ok re_match o E P c (seg_fuel E) [])) cls s)).
+Proof.
+  apply (keeps_rule_clauses re_ok re_match o E P c I).
+  - intros x s0 Hx H. apply I_emit; [apply walk_is_plain; exact Hx|exact H].
+  - exact early_from_prims.
+Qed.
+End KeepsPrims.
+
 (* ---------------- C11: the big-segment store is queried at most once per context key ---------------- *)
 Definition queries (tr : list obs) : list str :=
   flat_map (fun x => match x with OBsQuery k => [k] | _ => [] end) tr.
@@ -163,7 +211,7 @@ Proof.
   - destruct c; try discriminate. intros H; inversion H; subst. constructor.
   - assert (Hn : c <> CInvalid) by (intros Hx; rewrite Hx in Hc; discriminate).
     rewrite (run_valid _ _ _ _ _ _ _ Hn). unfold finish.
-    pose proof (keeps_eval_flag re_ok re_match o E P c qinv) as K.
+    pose proof (keeps_eval_flag_prims re_ok re_match o E P c qinv) as K.
     assert (Hq : qinv (snd (eval_flag re_ok re_match o E P c (flag_fuel E) [] f st0))).
     { apply K.
       - intros x s Hx [H1 H2]. split; simpl; [|exact H2]. destruct x; try discriminate; exact H1.
@@ -194,7 +242,7 @@ Hypothesis has_logger : o_logger o = true.
 (* logs are never removed *)
 Lemma logs_mono_eval fuel chain f s : (nlogs s <= nlogs (snd (eval_flag re_ok re_match o E P c fuel chain f s)))%nat.
 Proof.
-  apply (keeps_eval_flag re_ok re_match o E P c (fun s' => (nlogs s <= nlogs s')%nat)).
+  apply (keeps_eval_flag_prims re_ok re_match o E P c (fun s' => (nlogs s <= nlogs s')%nat)).
   - intros x s' _ H. unfold nlogs in *. simpl. destruct (is_log x); simpl; lia.
   - intros k e s' H. unfold log. destruct (o_logger o); unfold nlogs in *; simpl; lia.
   - intros b s' H. exact H.
@@ -205,7 +253,7 @@ Qed.
 Lemma logs_mono_clauses cls s :
   (nlogs s <= nlogs (snd (first_clause (clause_match re_ok re_match E c (seg_contains re_ok re_match o E P c (seg_fuel E) [])) cls s)))%nat.
 Proof.
-  apply (keeps_rule_clauses re_ok re_match o E P c (fun s' => (nlogs s <= nlogs s')%nat)).
+  apply (keeps_rule_clauses_prims re_ok re_match o E P c (fun s' => (nlogs s <= nlogs s')%nat)).
   - intros x s' _ H. unfold nlogs in *. simpl. destruct (is_log x); simpl; lia.
   - intros b s' H. exact H.
   - intros k s' H. unfold membership_for. destruct (assoc k (s_cache s')); [exact H|]. destruct P; simpl; exact H.
@@ -377,7 +425,7 @@ Proof.
   { destruct c; try discriminate. inversion Hr; subst. simpl in Hin. exact Hin. }
   assert (Hn : c <> CInvalid) by (intros Hx; rewrite Hx in Hc; discriminate).
   rewrite (run_valid _ _ _ _ _ _ _ Hn) in Hr. unfold finish in Hr.
-  pose proof (keeps_eval_flag re_ok re_match o E P c (fun s => nlogs s = O)) as K.
+  pose proof (keeps_eval_flag_prims re_ok re_match o E P c (fun s => nlogs s = O)) as K.
   assert (Hz : nlogs (snd (eval_flag re_ok re_match o E P c (flag_fuel E) [] f st0)) = O).
   { apply K; try reflexivity.
     - intros x s Hx H. unfold nlogs in *. simpl. unfold plain_obs in Hx. apply andb_true_iff in Hx as [_ Hx].
